@@ -36,6 +36,19 @@ CLAIMED = {
        "propext/Classical.choice/Quot.sound; XV.Spec.ContentModel and XV.Spec.DtdValid as transcribed; harness, generators and the Python XML renderer.",
   technique="Lean 4 proof over code-shaped models + exhaustive model/implementation/Spec correspondence",
   ref="4/C07"),
+ "C06": dict(
+  text="Lean 4 theorems over code-shaped models of ElemStack/WFElemStack (capacities and reserved names regenerated from the source each run), "
+       "XMLScanner::resolvePrefix, the two-pass start tag, SAX2XMLReaderImpl's prefix stacks and DOMNodeImpl's lookupNamespaceURI/lookupPrefix/"
+       "isDefaultNamespace: for every operation history mapPrefixToURI = the Spec's inScope (pop restores, map/stack growth, attribute order "
+       "irrelevant), start/endPrefixMapping events of any document are well nested and scoped at the matching endElement, for namespace-well-formed "
+       "documents the whole modelled SAX2 event sequence equals the Spec, DOM lookups on parsed trees answer by inScope, collision detection iff two "
+       "attributes share an expanded name, illegal xml/xmlns bindings rejected. Tied to the code by op-history correspondence on the exported "
+       "ElemStack/WFElemStack and by parse-level comparison (4 scanners x SAX2 on/off, SAX1, DOM with the three lookups on every node) judged by the Spec.",
+  note="Partial: lookupPrefix completeness, the DOM node builder and the model's error detection vs nsWellFormed are tied by correspondence only; the scanners "
+       "are reference-modelled for the namespace part only; attribute values, DTD defaults, entities, schema validation not modelled. Trusted: Lean kernel + "
+       "propext/Classical.choice/Quot.sound; Spec/Namespace.lean as transcribed; translator; harness/generators.",
+  technique="Lean 4 proof over translator-generated constants + model/implementation correspondence (direct class + parse level)",
+  ref="4/C06"),
 }
 
 def main():
